@@ -49,43 +49,105 @@ Proof.
     specialize (IH Hl). cbn [le_sum length]. lia.
 Qed.
 
-Lemma cs_loop_le_sum b : bytes_ok b -> forall s, s + le_sum b < 4294967296 -> cs_loop b s = s + le_sum b.
+Lemma cs_loop_le_sum b : bytes_ok b -> forall s, s + le_sum b < 18446744073709551616 -> cs_loop b s = s + le_sum b.
 Proof.
   induction b as [| x | x y l IH] using pair_ind; intros Hb s Hs.
   - simpl. lia.
-  - simpl in *. unfold u32. rewrite N.mod_small; lia.
+  - simpl in *. unfold u64. rewrite N.mod_small; lia.
   - inversion Hb as [|? ? Hx Hb']; subst. inversion Hb' as [|? ? Hy Hl]; subst.
     cbn [cs_loop le_sum] in *. rewrite lor_shl8 by exact Hx.
-    unfold u32. rewrite N.mod_small by lia. rewrite IH; [lia|exact Hl|lia].
+    unfold u64. rewrite N.mod_small by lia. rewrite IH; [lia|exact Hl|lia].
 Qed.
 
-(* ---- the double fold computes the one's-complement representative ---- *)
+(* ---- the fold loop computes the one's-complement representative ---- *)
 Lemma land_65535 s : N.land s 65535 = s mod 65536.
 Proof. change 65535 with (N.ones 16). rewrite N.land_ones. reflexivity. Qed.
 
-Lemma cs_fold_oc s : s < 4294967296 -> cs_fold s = 65535 - oc_fold s.
+(* one round of the loop as arithmetic *)
+Definition fold1 (s : N) : N := if s <? 65536 then s else s / 65536 + s mod 65536.
+
+Lemma cs_fold_loop_S f s : cs_fold_loop (S f) s =
+  if N.shiftr s 16 =? 0 then s else cs_fold_loop f (u64 (N.shiftr s 16 + N.land s 65535)).
+Proof. reflexivity. Qed.
+
+Lemma cs_fold_loop_small f s : s < 65536 -> cs_fold_loop f s = s.
 Proof.
-  intros Hs. unfold cs_fold, oc_fold, u32, u16.
-  rewrite !N.shiftr_div_pow2, land_65535. change (2 ^ 16) with 65536.
-  destruct (N.eqb_spec s 0) as [->|Hz]; [reflexivity|].
-  f_equal.
-  assert (H1 : s / 65536 + s mod 65536 < 4294967296) by lia.
-  rewrite (N.mod_small _ _ H1).
-  set (s1 := s / 65536 + s mod 65536).
-  assert (Hs1 : s1 <= 131070) by (unfold s1; lia).
-  assert (H2 : s1 + s1 / 65536 < 4294967296) by lia.
-  rewrite (N.mod_small _ _ H2).
-  assert (Hc : s1 mod 65535 = s mod 65535) by (unfold s1; lia).
-  assert (Hnz : s1 <> 0) by (unfold s1; lia).
-  lia.
+  intros H. destruct f as [|f]; [reflexivity|]. rewrite cs_fold_loop_S.
+  rewrite N.shiftr_div_pow2. change (2 ^ 16) with 65536.
+  rewrite N.div_small by exact H. reflexivity.
 Qed.
 
-Theorem checksum_oc_le b : bytes_ok b -> N.of_nat (length b) <= 131074 ->
+Lemma cs_fold_loop_step f s : s < 18446744073709551616 -> cs_fold_loop (S f) s = cs_fold_loop f (fold1 s).
+Proof.
+  intros H. unfold fold1. destruct (N.ltb_spec s 65536) as [Hs|Hs].
+  - rewrite !cs_fold_loop_small by exact Hs. reflexivity.
+  - rewrite cs_fold_loop_S. rewrite N.shiftr_div_pow2, land_65535. change (2 ^ 16) with 65536.
+    assert (Hd : s / 65536 <> 0) by lia.
+    apply N.eqb_neq in Hd. rewrite Hd. unfold u64. rewrite N.mod_small by lia. reflexivity.
+Qed.
+
+Lemma fold1_congr s : fold1 s mod 65535 = s mod 65535.
+Proof. unfold fold1. destruct (N.ltb_spec s 65536); lia. Qed.
+Lemma fold1_pos s : s <> 0 -> fold1 s <> 0.
+Proof. unfold fold1. destruct (N.ltb_spec s 65536); lia. Qed.
+Lemma fold1_le s : fold1 s <= s.
+Proof. unfold fold1. destruct (N.ltb_spec s 65536); lia. Qed.
+Lemma fold1_bound s B : s <= B -> fold1 s <= B / 65536 + 65535.
+Proof. unfold fold1. intros H. destruct (N.ltb_spec s 65536); lia. Qed.
+Lemma fold1_last s : s <= 65536 -> fold1 s <= 65535.
+Proof. unfold fold1. intros H. destruct (N.ltb_spec s 65536); lia. Qed.
+
+(* five rounds suffice for any 64-bit accumulator: the fuel of the model is never exhausted *)
+Lemma fold5_small s : s < 18446744073709551616 -> fold1 (fold1 (fold1 (fold1 (fold1 s)))) <= 65535.
+Proof.
+  intros H.
+  assert (H1 : fold1 s <= 281474976776190) by (pose proof (fold1_bound s 18446744073709551615); lia).
+  assert (H2 : fold1 (fold1 s) <= 4295032831) by (pose proof (fold1_bound (fold1 s) 281474976776190); lia).
+  assert (H3 : fold1 (fold1 (fold1 s)) <= 131071) by (pose proof (fold1_bound (fold1 (fold1 s)) 4295032831); lia).
+  assert (H4 : fold1 (fold1 (fold1 (fold1 s))) <= 65536) by (pose proof (fold1_bound (fold1 (fold1 (fold1 s))) 131071); lia).
+  apply fold1_last. exact H4.
+Qed.
+
+Lemma cs_fold_loop_fold5 s : s < 18446744073709551616 ->
+  cs_fold_loop 8 s = fold1 (fold1 (fold1 (fold1 (fold1 s)))).
+Proof.
+  intros H.
+  assert (L : forall x, x < 18446744073709551616 -> fold1 x < 18446744073709551616)
+    by (intros x Hx; pose proof (fold1_le x); lia).
+  rewrite cs_fold_loop_step by exact H.
+  rewrite cs_fold_loop_step by auto.
+  rewrite cs_fold_loop_step by auto.
+  rewrite cs_fold_loop_step by auto.
+  rewrite cs_fold_loop_step by auto 6.
+  apply cs_fold_loop_small. pose proof (fold5_small s H). lia.
+Qed.
+
+(* the loop has terminated when the model's fuel runs out: the value it returns is what the Go loop returns *)
+Lemma cs_fold_loop_done s : s < 18446744073709551616 -> N.shiftr (cs_fold_loop 8 s) 16 = 0.
+Proof.
+  intros H. rewrite cs_fold_loop_fold5 by exact H. rewrite N.shiftr_div_pow2. change (2 ^ 16) with 65536.
+  apply N.div_small. pose proof (fold5_small s H). lia.
+Qed.
+
+Lemma cs_fold_oc s : s < 18446744073709551616 -> cs_fold s = 65535 - oc_fold s.
+Proof.
+  intros Hs. unfold cs_fold. rewrite cs_fold_loop_fold5 by exact Hs.
+  pose proof (fold5_small s Hs) as Hb.
+  set (r := fold1 (fold1 (fold1 (fold1 (fold1 s))))) in *.
+  assert (Hc : r mod 65535 = s mod 65535) by (unfold r; rewrite !fold1_congr; reflexivity).
+  assert (Hz : s <> 0 -> r <> 0) by (intros Hn; unfold r; do 5 apply fold1_pos; exact Hn).
+  assert (Hz' : s = 0 -> r = 0) by (intros ->; reflexivity).
+  unfold u16. rewrite N.mod_small by lia. f_equal.
+  unfold oc_fold. destruct (N.eqb_spec s 0) as [E|E]; [auto|]. specialize (Hz E). lia.
+Qed.
+
+(* every byte string a Go program can hold: lengths up to 2^49 (amd64 address space: 2^48) *)
+Theorem checksum_oc_le b : bytes_ok b -> N.of_nat (length b) <= 562949953421312 ->
   checksum b = 65535 - oc_fold (le_sum b).
 Proof.
   intros Hb Hl. unfold checksum.
   pose proof (le_sum_bound b Hb) as Hbd.
-  assert (le_sum b < 4294967296) by lia.
+  assert (le_sum b < 18446744073709551616) by lia.
   rewrite cs_loop_le_sum by (auto; lia). rewrite N.add_0_l. apply cs_fold_oc. assumption.
 Qed.
 
@@ -139,21 +201,21 @@ Proof.
     generalize (le_sum b). intros n. lia.
 Qed.
 
-Theorem checksum_rfc1071 b : bytes_ok b -> N.of_nat (length b) <= 131074 ->
+Theorem checksum_rfc1071 b : bytes_ok b -> N.of_nat (length b) <= 562949953421312 ->
   checksum b = swap16 (rfc1071 b).
 Proof.
   intros Hb Hl. rewrite checksum_oc_le by assumption. unfold rfc1071.
   rewrite swap16_compl by apply oc_fold_range. f_equal. apply oc_fold_le_be. exact Hb.
 Qed.
 
-(* The bound is sharp in the sense that the uint32 accumulator wraps just
-   above it: 131076 bytes of 0xff give 1, RFC 1071 gives 0. *)
-Lemma checksum_beyond_bound_refuted :
-  exists b, bytes_ok b /\ N.of_nat (length b) = 131076 /\ checksum b <> swap16 (rfc1071 b).
+(* The former uint32 accumulator wrapped at 131076 bytes of 0xff (it returned 1, RFC 1071 gives 0):
+   the repaired function is right there. *)
+Example checksum_long_example :
+  let b := repeat 255 (N.to_nat 131076) in
+  bytes_ok b /\ N.of_nat (length b) = 131076 /\ checksum b = swap16 (rfc1071 b) /\ checksum b = 0.
 Proof.
-  exists (repeat 255 (N.to_nat 131076)). split; [apply bytes_ok_repeat; lia|]. split.
-  - rewrite repeat_length. lia.
-  - vm_compute. discriminate.
+  cbn zeta. split; [apply bytes_ok_repeat; lia|]. split; [rewrite repeat_length; lia|].
+  split; vm_compute; reflexivity.
 Qed.
 
 (* ---- splitting ---- *)
@@ -198,7 +260,7 @@ Proof. unfold u8. lia. Qed.
 
 Theorem insert_verifies a b :
   Nat.even (length a) = true -> bytes_ok a -> bytes_ok b ->
-  N.of_nat (length a + length b) + 2 <= 131074 ->
+  N.of_nat (length a + length b) + 2 <= 562949953421312 ->
   let cs := checksum (a ++ 0 :: 0 :: b) in
   verifies (a ++ u8 cs :: u8 (N.shiftr cs 8) :: b).
 Proof.
@@ -220,7 +282,7 @@ Qed.
 (* ICMPv4: icmp4SendPacket does ICMP(p).SetChecksum(Checksum(p)) on a message
    whose checksum field is still zero (EncodeICMPEcho writes 0 there). *)
 Theorem icmp4_verifies p :
-  bytes_ok p -> (4 <= length p)%nat -> N.of_nat (length p) <= 131074 ->
+  bytes_ok p -> (4 <= length p)%nat -> N.of_nat (length p) <= 562949953421312 ->
   nth 2 p 0 = 0 -> nth 3 p 0 = 0 ->
   verifies (icmp_set_checksum p (checksum p)).
 Proof.
@@ -242,7 +304,7 @@ Qed.
 Theorem icmp6_verifies src dst p :
   bytes_ok src -> bytes_ok dst -> bytes_ok p ->
   length src = 16%nat -> length dst = 16%nat -> (4 <= length p)%nat ->
-  N.of_nat (length p) <= 131000 ->
+  N.of_nat (length p) <= 4294967295 ->
   nth 2 p 0 = 0 -> nth 3 p 0 = 0 ->
   let psh := icmp6_pseudo src dst (N.of_nat (length p)) in
   verifies (psh ++ icmp_set_checksum p (checksum (psh ++ p))).
@@ -336,7 +398,7 @@ Qed.
    parts' sums: directly at even offsets, with the second part shifted by one
    byte at odd offsets (RFC 1071 section 2 (B)). *)
 Theorem checksum_split a b :
-  bytes_ok a -> bytes_ok b -> N.of_nat (length a + length b) <= 131074 ->
+  bytes_ok a -> bytes_ok b -> N.of_nat (length a + length b) <= 562949953421312 ->
   checksum (a ++ b) =
     65535 - oc_add (oc_fold (le_sum a))
                    (oc_fold (le_sum (if Nat.even (length a) then b else 0 :: b))).
